@@ -26,6 +26,7 @@ var (
 	stObjects    = []string{"o1", "o2", "", "o:#@", "世界", "u1", "6ba7b810-9dad-11d1-80b4-00c04fd430c8", "6BA7B810-9DAD-11D1-80B4-00C04FD430C8", "{6ba7b810-9dad-11d1-80b4-00c04fd430c8}"}
 	stRelations  = []string{"r", "s", ""}
 	stSubjects   = []string{"u1", "u2", "o1", "", "a b"}
+	stMotif      = []string{"o1", "o2", ""}
 )
 
 func stNs(r *rng, bad int) string {
@@ -47,11 +48,21 @@ func stTuple(r *rng, bad int) *ketoapi.RelationTuple {
 		t.SubjectID = &s
 	default:
 		t.SubjectSet = &ketoapi.SubjectSet{Namespace: stNs(r, bad), Object: r.pick(stObjects), Relation: r.pick(stRelations)}
+		if r.chance(1, 3) {
+			// motif for queries that name an object AND a subject set (C16-i): few names, so that such queries match rows
+			// and their confusable twins (subject-set object equal to / different from the object) exist side by side
+			t.Namespace, t.Object, t.Relation = "n", r.pick(stMotif), "r"
+			t.SubjectSet = &ketoapi.SubjectSet{Namespace: "n", Object: r.pick(stMotif), Relation: "r"}
+		}
 	}
 	return t
 }
 func stQueryPairs(r *rng, bad int) [][2]string {
 	var p [][2]string
+	if r.chance(1, 8) {
+		// object AND subject set, nothing else (see stMotif)
+		return [][2]string{{"object", r.pick(stMotif)}, {"subject_set.namespace", "n"}, {"subject_set.object", r.pick(stMotif)}, {"subject_set.relation", "r"}}
+	}
 	if r.chance(85, 100) {
 		p = append(p, [2]string{"namespace", stNs(r, bad)})
 	}
@@ -85,6 +96,12 @@ func encodePairs(p [][2]string) string {
 }
 func stPQuery(r *rng, bad int) *rts.RelationQuery {
 	q := &rts.RelationQuery{}
+	if r.chance(1, 8) {
+		o := r.pick(stMotif)
+		q.Object = &o
+		q.Subject = rts.NewSubjectSet("n", r.pick(stMotif), "r")
+		return q
+	}
 	if r.chance(2, 3) {
 		s := stNs(r, bad)
 		q.Namespace = &s
